@@ -9,9 +9,198 @@ SPECS = CE.TYPES + [s for s in CE.FOLD if s.kind == 'witness']
 
 
 def run(res, args):
-    kani.check_property(res, 'c05', CE.FRAG, SPECS, default_timeout=600 if C.tier() == 'quick' else 1500)
+    import threading
+    err = []
+
+    def kani_part():
+        try:
+            kani.check_property(res, 'c05', CE.FRAG, SPECS, default_timeout=600 if C.tier() == 'quick' else 1500)
+        except Exception as e:          # reported after the join
+            err.append(e)
+    th = threading.Thread(target=kani_part)
+    th.start()
+    try:
+        typing_agreement(res)
+    finally:
+        th.join()
+    if err:
+        raise err[0]
     res.assumptions += [
         'NARROW: only the constant-folding tables are decided; typeutil::{deduce_type,pick_type_cast,is_assignable}, '
         'builder::emit_unary/binary_expression, walker checks and return-type/parameter verification are outside (Kani ICE / tree-sitter / >15 min)',
         'kind pairs the builder can never produce as two constants (QString/QString, null, []) are only required to be rejected or compared, never to panic',
     ]
+
+
+# ================================================================================================
+# Engine-B side: agreement of the CLI's accept/reject verdict with the documented typing rules on
+# bounded-exhaustive families of single type-breaking edits.  This part is ENUMERATION + reference type
+# checking (no solver search): it is reported separately in evidence and labelled as such.
+import itertools, random
+from ..tv import driver as D, gen as G, lang as L
+
+REP = {  # one representative expression per (possibly constant) type
+    'cint': ('lit', 'int', 1), 'int': G.P('a', 'ival'), 'uint': G.P('a', 'uval'), 'double': G.P('a', 'dval'), 'cdouble': ('lit', 'double', 1.5),
+    'bool': G.P('b', 'flag'), 'QString': G.P('a', 'sval'), 'cstr': ('lit', 'QString', 'q'), 'ptr:VNode': G.P('a', 'next'), 'cnull': ('lit', 'null', None),
+    'enum:Mode': G.P('a', 'mode'), 'QStringList': G.P('a', 'items'),
+}
+TARGETS = ['int', 'uint', 'double', 'bool', 'QString', 'ptr:VNode', 'enum:Mode']
+
+
+def return_triples(step, off):
+    keys = ['cint', 'int', 'uint', 'double', 'bool', 'QString', 'cstr', 'ptr:VNode', 'cnull', 'enum:Mode']
+    n = 0
+    for ty in TARGETS:
+        for r1, r2, r3 in itertools.product(keys, repeat=3):
+            n += 1
+            if n % step != off:
+                continue
+            body = [('if', G.P('a', 'flag'), [('return', REP[r1])], None), ('if', G.P('c', 'flag'), [('return', REP[r2])], None), ('return', REP[r3])]
+            yield D.Program('binding', ty, body, tag='typing:return-triples')
+        for r1, r2 in itertools.product(keys, repeat=2):
+            body = [('if', G.P('a', 'flag'), [('return', REP[r1])], None), ('expr', REP[r2])]
+            yield D.Program('binding', ty, body, tag='typing:return-pairs')
+
+
+def operand_edits(step, off):
+    """every production x every child position x a representative of every other type in that position"""
+    n = 0
+    for ty in G.TYPES + ['enum:Mode', 'ptr:VNode', 'QStringList']:
+        for tag, cts, build in G.productions(ty):
+            for pos in range(len(cts)):
+                for k, rep in REP.items():
+                    n += 1
+                    if n % step != off:
+                        continue
+                    kids = [rep if i == pos else G.leaves(c, full=False)[0] for i, c in enumerate(cts)]
+                    try:
+                        e = build(*kids)
+                    except Exception:
+                        continue
+                    yield D.Program('binding', ty, e, tag='typing:operand-edit')
+
+
+def statement_rules():
+    I = lambda v: ('lit', 'int', v)
+    out = []
+    keys = list(REP)
+    for k in keys:        # conditions must be bool
+        out.append(D.Program('binding', 'int', [('if', REP[k], [('return', I(1))], None), ('return', I(2))], tag='typing:condition'))
+        out.append(D.Program('binding', 'int', ('tern', REP[k], I(1), I(2)), tag='typing:condition'))
+        out.append(D.Program('binding', 'bool', ('bin', '&&', REP[k], G.P('a', 'flag')), tag='typing:condition'))
+        out.append(D.Program('binding', 'bool', ('bin', '||', G.P('a', 'flag'), REP[k]), tag='typing:condition'))
+        out.append(D.Program('binding', 'bool', ('un', '!', REP[k]), tag='typing:condition'))
+    anns = ['int', 'uint', 'double', 'bool', 'QString', 'ptr:VNode', 'enum:Mode']
+    for ann in anns:      # declarations and assignments
+        for k in keys:
+            out.append(D.Program('binding', 'int', [('let', 'let', 'v', ann, REP[k]), ('return', G.P('a', 'ival'))], tag='typing:declaration'))
+            out.append(D.Program('binding', 'int', [('let', 'let', 'v', ann, None), ('assign', 'v', REP[k]), ('return', G.P('a', 'ival'))], tag='typing:assignment'))
+    for k in keys:
+        out.append(D.Program('binding', 'int', [('let', 'const', 'v', None, REP[k]), ('assign', 'v', REP[k]), ('return', G.P('a', 'ival'))], tag='typing:const-assignment'))
+        out.append(D.Program('binding', 'int', [('let', 'let', 'v', None, REP[k]), ('assign', 'v', REP[k]), ('return', G.P('a', 'ival'))], tag='typing:assignment'))
+    for d in ('int', 'uint', 'QString', 'enum:Mode', 'double', 'bool', 'ptr:VNode'):   # switch discriminant vs case label
+        for k in keys:
+            out.append(D.Program('binding', 'int', [('switch', REP[d], [(REP[k], [('return', I(1))])]), ('return', I(2))], tag='typing:switch-case'))
+    # callbacks: property assignment, read-only property, method arguments
+    for prop in ('ival', 'uval', 'dval', 'flag', 'sval', 'next', 'mode', 'items', 'cval'):
+        for k in keys:
+            out.append(D.Program('callback', None, [('setprop', ('obj', 'b'), prop, REP[k])], signal='pinged', tag='typing:property-assignment'))
+    for m, nargs in (('poke', 1), ('reset', 0), ('note', 2), ('link', 1)):
+        for n in range(0, 3):
+            for combo in itertools.product(['cint', 'int', 'double', 'QString', 'cstr', 'ptr:VNode', 'cnull'], repeat=n):
+                out.append(D.Program('callback', None, [('callm', ('obj', 'a'), m, [REP[c] for c in combo])], signal='pinged', tag='typing:method-call'))
+    return out
+
+
+def reference_verdict(prog):
+    try:
+        prog.idx = 0
+        an = D.Analysis(prog, None, 1, True)
+        an.ref_side()
+        return 'accept', ''
+    except L.IllTyped as e:
+        return 'reject', str(e)
+    except Exception as e:
+        return 'unjudged', repr(e)[:80]
+
+
+def typing_agreement(res):
+    import os, shutil, hashlib
+    tier = C.tier()
+    # the whole enumeration costs ~20 s of CLI time, so both tiers run all of it
+    progs = list(return_triples(1, 0)) + list(operand_edits(1, 0)) + statement_rules()
+    qmluic = C.build_native()
+    work = os.path.join(C.CACHE, 'tv', 'c05')
+    shutil.rmtree(work, ignore_errors=True)
+    seen, acc, rej, unjudged = set(), [], [], []
+    for p in progs:
+        key = hashlib.sha1((p.kind + str(p.ty) + p.source()).encode()).hexdigest()
+        if key in seen:
+            continue
+        seen.add(key)
+        v, why = reference_verdict(p)
+        if v == 'unjudged':
+            unjudged.append((p.source(), why))
+            continue
+        (acc if v == 'accept' else rej).append((p, why))
+    stats = {'expected_accept': len(acc), 'expected_reject': len(rej), 'wrongly_rejected': 0, 'wrongly_accepted': 0}
+    samples, by_tag = [], {}
+    problems = []
+    legit = ('integer overflow', 'integer conversion', 'unobservable property')
+
+    def run_batch(chunk):
+        """-> set of indices of chunk rejected by the CLI (iterating until the rest is accepted)"""
+        rejected = {}
+        idx = list(range(len(chunk)))
+        for _ in range(len(chunk) + 2):
+            if not idx:
+                break
+            doc = D.Doc([chunk[i][0] for i in idx])
+            r = D.run_cli(qmluic, work, doc.text)
+            if r.rc == 0:
+                break
+            errs = D.error_lines(r.stderr)
+            bad = {}
+            for line, msg in errs:
+                for j, (a, b) in enumerate(doc.ranges):
+                    if a <= line <= b:
+                        bad.setdefault(idx[j], msg)
+            if not bad:
+                raise C.Inconclusive('diagnostic outside every generated binding:\n' + r.stderr[-800:])
+            rejected.update(bad)
+            idx = [i for i in idx if i not in bad]
+        return rejected
+    for group, expect in ((acc, 'accept'), (rej, 'reject')):
+        for k in range(0, len(group), 40):
+            chunk = group[k:k + 40]
+            rejected = run_batch(chunk)
+            for i, (p, why) in enumerate(chunk):
+                by_tag[p.tag] = by_tag.get(p.tag, 0) + 1
+                got = 'reject' if i in rejected else 'accept'
+                if got == expect:
+                    if len(samples) < 8 and (expect == 'reject') == (len(samples) % 2 == 0):
+                        samples.append({'qml': p.source(), 'documented_rule_says': expect + (': ' + why if why else ''), 'cli': got + (': ' + rejected[i] if i in rejected else '')})
+                    continue
+                if expect == 'accept' and rejected[i].startswith(legit):
+                    continue
+                problems.append((p, expect, got, why, rejected.get(i, '')))
+    for (p, expect, got, why, msg) in problems:
+        stats['wrongly_accepted' if expect == 'reject' else 'wrongly_rejected'] += 1
+    for n, (p, expect, got, why, msg) in enumerate(problems[:6]):
+        d = C.new_replay_dir('C05', f'typing-{n + 1}')
+        doc = D.Doc([p])
+        with open(os.path.join(d, 'Doc.qml'), 'w') as f:
+            f.write(doc.text)
+        with open(os.path.join(d, 'README.txt'), 'w') as f:
+            f.write(f'documented typing rules: {expect} ({why}); qmluic generate-ui: {got} ({msg})\n'
+                    f'replay: qmluic generate-ui --foreign-types /repo/contrib/metatypes --foreign-types /verif/data/vnode_metatypes.json Doc.qml\n')
+        if expect == 'reject':
+            desc = f'ill-typed program is accepted and code is generated (rule: {why}):\n{p.source()}'
+        else:
+            desc = f'well-typed program of the documented subset is rejected ({msg}):\n{p.source()}'
+        res.violation({'site': 'typing verdict', 'shape': p.tag, 'expect': expect}, desc, d)
+    shutil.rmtree(work, ignore_errors=True)
+    res.coverage['typing_agreement(enumeration + reference type checker, no solver search)'] = dict(
+        stats, programs_by_family=by_tag, samples=samples, unjudged_by_reference=len(unjudged), unjudged_samples=unjudged[:3],
+        rule='documented typing rules = vlib/tv/lang.py typeof/unify/assignable + result-type rule; families: return-type pairs/triples x target type, '
+             'every operator x operand position x representative of every type, conditions, declarations, assignments, const, switch labels, property assignment, method arguments')
